@@ -546,7 +546,7 @@ func c02r8(w *World, rr *RuleRun) {
 			if isOffer(e.Callee) {
 				return true
 			}
-			if depth < 2 && e.Callee.Parent() != nil && len(e.Callee.Blocks) > 0 && len(w.CG.SiteOut[ins]) == 1 {
+			if depth < 2 && w.P.IsLib(e.Callee) && len(e.Callee.Blocks) > 0 && len(w.CG.SiteOut[ins]) == 1 {
 				first := e.Callee.Blocks[0].Instrs[0]
 				if ok, _ := MustPass(first, func(i ssa.Instruction) bool { return offers(i, depth+1) }); ok || offers(first, depth+1) {
 					return true
